@@ -479,6 +479,9 @@ func TestVerifReplay(t *testing.T) {
 				tries = 3000 // outcome depends on math/rand: statistical replay
 			}
 		}
+		if vState.file.Sched > 0 && tries < 1000 {
+			tries = 1000 // outcome depends on the goroutine schedule: repeated natively
+		}
 		var st, msg string
 		for try := 0; try < tries; try++ {
 			vState.pos = 0
@@ -647,7 +650,7 @@ func writeReplay(prop, tier string, v Violation) string {
 	dir := filepath.Join(verifDir, "replays")
 	os.MkdirAll(dir, 0755)
 	body := map[string]interface{}{"property": prop, "harness": v.Harness, "tier": tier, "clause": v.Clause, "kind": v.Kind,
-		"draws": v.Draws, "prefix": v.Prefix, "detail": v.Detail, "finding": v.Finding, "sched": v.Sched}
+		"draws": v.Draws, "prefix": v.Prefix, "detail": v.Detail, "finding": v.Finding, "sched": v.Sched, "sched_points": len(v.Sched)}
 	b, _ := json.MarshalIndent(body, "", " ")
 	h := sha1.Sum(b)
 	path := filepath.Join(dir, fmt.Sprintf("%s-%s-%x.json", prop, v.Harness, h[:5]))
